@@ -1123,7 +1123,10 @@ class Variable(CanBehaveLikeAVariable[T]):
 
         # Compute truth considering inversion. Only the output of a predicate is a truth value; an instance (of a class
         # that may well define __len__ or __bool__) is a value.
-        result_truthy = bool(function_output) if self._predicate_type_ is not None else True
+        # ... and so is the output of a predicate that does not stand in condition position (an operand of a comparison, a
+        # selected output, an argument).
+        result_truthy = bool(function_output) if (self._predicate_type_ is not None
+                                                  and self._is_in_condition_position_) else True
         self._is_false_ = result_truthy if self._invert_ else not result_truthy
 
         if self._yield_when_false_ or not self._is_false_:
